@@ -7,6 +7,7 @@ give the observed side. Count of messages is checked against the permitted hits.
 """
 import logging
 import os
+import threading
 import re
 
 from vf import clock, plugins, hostframe, snapcheck
@@ -23,7 +24,7 @@ RULE = ('templates from a grammar: literal runs (ascii, unicode, %, $, quotes), 
         'malformed templates for containment only; non-trivial = a message was expected and compared; distinct by '
         '(template, frame inputs, mode)')
 ASSUMPTIONS = ['field expressions avoid the characters the format mini-language gives a meaning to']
-REQUIRE = {'messages_compared': 1000, 'fields_compared': 1500, 'failing_fields': 150, 'snapshot_log_pairs': 300,
+REQUIRE = {'messages_built_while_another_thread_is_inside_its_message': 15, 'messages_compared': 1000, 'fields_compared': 1500, 'failing_fields': 150, 'snapshot_log_pairs': 300,
            'label_checks': 1000, 'python_plugin_messages': 100, 'malformed_templates': 30,
            'messages_the_logger_rejected': 40, 'logger_reconfigured_cases': 40}
 T0 = 1_700_000_000_000_000_000
@@ -80,7 +81,7 @@ LITERALS = ['', ' ', 'value=', 'hit ', ' -> ', 'ünï ✓ ', '100% ', '$x ', "it
 
 def plan(tier, seed):
     n = {'quick': 960, 'thorough': 14400}[tier]
-    return split_seeds('l%s' % seed, n, 16, 'log')
+    return split_seeds('l%s' % seed, n, 16, 'log') + split_seeds('m%s' % seed, n // 16, 2, 'meet')
 
 
 def gen_template(r):
@@ -395,10 +396,111 @@ def case_log(seed, out, spec, wd):
                      'messages_compared': compared})
 
 
+class _Parks:
+    """A field value whose text form parks its thread (once) until the monitor lets it go on."""
+
+    def __init__(self, label, hold):
+        self.label, self.hold = label, hold
+        self.parked, self.release = threading.Event(), threading.Event()
+        self.seen = False
+
+    def __str__(self):
+        if self.hold and not self.seen:
+            self.seen = True
+            self.parked.set()
+            self.release.wait(5)
+        return 'gate-%s' % self.label
+
+    __repr__ = __str__
+
+
+def case_meet(seed, out, spec, wd):
+    """Two threads build a message for the same log tracepoint at the same time: the first is parked in the middle of
+    its message (inside the text form of one of its fields) while the second builds and emits a whole message; then the
+    first goes on. Each message is rendered from its own frame."""
+    r = Rng('c16m', seed)
+    plugins.reset()
+    path = os.path.join(wd, 'c16host.py')
+    if not os.path.exists(path):
+        with open(path, 'w') as f:
+            f.write(HOST)
+    base = os.path.basename(path)
+    line = hostframe.markers(path)['hit']
+    mod = hostframe.load(path)
+    before = r.sample(['count', 'name', 'name.upper()', 'person.age + 1', 'len(data)'], r.randrange(1, 3))
+    after = r.sample(['count * 2', 'shout(name)', 'person.name', 'sorted(data)', 'sum(d * count for d in data)'],
+                     r.randrange(1, 3))
+    template = 'meet ' + ' '.join('{%s}' % f for f in before) + ' <{weird}> ' + ' '.join('{%s}' % f for f in after)
+    args = {'log_msg': template, 'fire_count': '-1', 'fire_period': '0'}
+    if r.chance(0.5):
+        args['snapshot'] = 'no_collect'
+    rig = Rig(custom={}, host_dir=wd, plugins=[plugins.make('RecLogger', ['log'])()])
+    rig.install([line_trigger('tp-meet', base, line, args, [], [])])
+    gates = [_Parks('A', True), _Parks('B', False)]
+    inputs = [(r.randrange(1, 7), r.pick(['ann', 'bob']), 'p1', [r.randrange(9) for _ in range(3)]),
+              (r.randrange(7, 13), r.pick(['cyd', 'dee']), 'p2', [r.randrange(9) for _ in range(2)])]
+    want = {}
+    for i, (count, name, pname, data) in enumerate(inputs):
+        ns = {'count': count, 'name': name, 'person': mod.Person(pname, 40 + i), 'data': data, 'shout': mod.shout}
+        want[i] = '[deep] meet ' + ' '.join(str(eval(f, dict(ns))) for f in before) + ' <gate-%s> ' % 'AB'[i] + \
+            ' '.join(str(eval(f, dict(ns), dict(ns))) if 'for' not in f else str(sum(d * count for d in data))
+                     for f in after)
+    got = {}
+
+    def hook(name, callback, payload):
+        if callback == 'log':
+            got.setdefault(threading.current_thread().name, []).append(payload['msg'])
+
+    plugins.HOOK[0] = hook
+
+    def worker(i):
+        count, name, pname, data = inputs[i]
+        mod.leaf(count, name, mod.Person(pname, 40 + i), data, gates[i])
+
+    def body():
+        ta = threading.Thread(target=worker, args=(0,), name='meet-A')
+        tb = threading.Thread(target=worker, args=(1,), name='meet-B')
+        ta.start()
+        met = gates[0].parked.wait(5)
+        tb.start()
+        tb.join(10)
+        gates[0].release.set()
+        ta.join(10)
+        return met, ta.is_alive() or tb.is_alive()
+
+    try:
+        res, exc = rig.run(body)
+    finally:
+        plugins.HOOK[0] = None
+    rig.cleanup()
+    if exc is not None or res is None or res[1]:
+        out.inconc('C16 meet: threads did not finish (%r)' % (exc,))
+        return
+    witness = {'template': template, 'first_thread_parked_inside_its_message': res[0], 'messages': got, 'expected': want}
+    replay = replay_spec(spec, seed)
+    for i, tname in enumerate(['meet-A', 'meet-B']):
+        msgs = got.get(tname, [])
+        if len(msgs) != 1:
+            out.violation('log:message-count', 'thread %s reached the log tracepoint once and %d messages were emitted '
+                          'for it (the other thread was building its own message at the same time)' % (tname, len(msgs)),
+                          witness, replay)
+            return
+        if msgs[0] != want[i]:
+            out.violation('log:text', 'thread %s: message %r, its frame renders %r (another thread was building its '
+                          'message at the same time)' % (tname, msgs[0], want[i]), witness, replay)
+            return
+    if res[0]:
+        out.count('messages_built_while_another_thread_is_inside_its_message')
+    out.case({'meet': template, 'in': inputs}, nontrivial=bool(res[0]), sample=witness)
+
+
 def run_shard(spec, out):
     wd = Workdir('c16')
     try:
         for seed in spec_seeds(spec):
-            case_log(seed, out, spec, wd.path)
+            if spec.get('kind') == 'meet':
+                case_meet(seed, out, spec, wd.path)
+            else:
+                case_log(seed, out, spec, wd.path)
     finally:
         wd.close()
